@@ -38,19 +38,10 @@ def tagElems (e : Value) : List Value :=
   | some (.arr a) => VList.toL a
   | _ => []
 
-/-- `key:value` split at the first colon -/
-def splitTag : Bytes → Option (Bytes × Bytes)
-  | [] => none
-  | c :: r =>
-    if c == colon then some ([], r)
-    else match splitTag r with
-      | some (k, v) => some (c :: k, v)
-      | none => none
-
 /-- the values `v` of the elements `k:v` whose key is `tag` -/
 def tagValues (E : Env) (tag : Str) (e : Value) : List Bytes :=
   (tagElems e).filterMap fun x =>
-    match splitTag (stringValue E x) with
+    match splitColon (stringValue E x) with
     | some (k, v) => if k = utf8 tag then some v else none
     | none => none
 
@@ -201,18 +192,7 @@ def run (E : Env) (q : QNode) (e : Value) : MatchOut :=
   | .err => .err
   | .panic => .panic
 
-/-! ### where the implementation is known to deviate (finding classes of C31) -/
-
-def isTagField : Field → Bool
-  | .tag _ => true
-  | _ => false
-
-/-- a comparison or (half-)bounded range on a tag: the implementation compares the value of *every*
-    `key:value` element of `tags`, whatever its key -/
-def leafTagCompare : Leaf → Bool
-  | .comparison a _ _ => (normalizeFields a).any isTagField
-  | .range a lo _ hi _ => (normalizeFields a).any isTagField && !(lo = .unbounded && hi = .unbounded)
-  | _ => false
+/-! ### where the implementation is known to deviate (finding class of C31) -/
 
 /-- existence of the reserved field `tags`: the implementation compares each element with the whole
     array and therefore never finds it -/
@@ -231,11 +211,11 @@ mutual
     | .cons n ns => anyLeaf p n || anyLeafL p ns
 end
 
-def devTagCompare (q : QNode) : Bool := anyLeaf leafTagCompare q
 def devExistsTags (q : QNode) : Bool := anyLeaf leafExistsTags q
 
-/-- no leaf of a deviating shape -/
-def noDev (q : QNode) : Bool := !devTagCompare q && !devExistsTags q
+/-- no leaf of the deviating shape (comparisons on tags used to be a second deviating shape; repaired
+    in /repo d99b562) -/
+def noDev (q : QNode) : Bool := !devExistsTags q
 
 /-! ### Boolean skeletons (the compositional oracle `o.c31 skel`) -/
 
